@@ -51,10 +51,10 @@ func init() {
 
 // c20Iso walks a and b together. seenA maps original pointers to result pointers, seenB the reverse.
 type c20Iso struct {
-	ab    map[uintptr]uintptr
-	ba    map[uintptr]uintptr
-	pairs int
-	open  []uintptr // original pointers on the current walk path (objects still "under construction" in document order)
+	ab     map[uintptr]uintptr
+	ba     map[uintptr]uintptr
+	pairs  int
+	open   []uintptr // original pointers on the current walk path (objects still "under construction" in document order)
 	region string
 }
 
